@@ -13,7 +13,36 @@ pub fn worker(ctx: &Ctx, wc: WorkerCtx, _extra: &[String]) {
     super::c16::worker_for(Focus::C17, ctx, wc)
 }
 
+/// child-process entry: successive terminal objects on one pty device number (real system calls)
+pub fn successive_main() {
+    match tc::successive_terminals_check() {
+        Ok((runs, problems)) => {
+            let ps: Vec<Value> = problems.iter().map(|(k, w)| json!([k, w])).collect();
+            println!("SUCCESSIVE {}", json!({"runs": runs, "problems": ps}));
+        }
+        Err(e) => println!("SUCCESSIVE {}", json!({"error": e})),
+    }
+}
+
+fn successive_in_child() -> Result<Value, String> {
+    let exe = std::env::current_exe().map_err(|e| format!("{e}"))?;
+    let out = std::process::Command::new(exe).arg("C17").arg("--successive").output().map_err(|e| format!("{e}"))?;
+    let text = String::from_utf8_lossy(&out.stdout);
+    for line in text.lines() {
+        if let Some(rest) = line.strip_prefix("SUCCESSIVE ") {
+            return serde_json::from_str::<Value>(rest).map_err(|e| format!("{e}"));
+        }
+    }
+    Err(format!("successive-terminals child produced no summary (status {})", out.status))
+}
+
 pub fn run(ctx: &Ctx) -> Result<Report, String> {
+    // two terminal objects, one after the other, on one pty device number (before the workers start: pty numbers
+    // are shared by all processes)
+    let successive = successive_in_child()?;
+    if let Some(e) = successive.get("error") {
+        return Err(format!("successive-terminals check: {e}"));
+    }
     let merged = super::c16::run_terminal(ctx, Focus::C17, "C17")?;
     let c = |k: &str| merged.counters.get(k).copied().unwrap_or(0);
     let mut r = Report::new("fault_enumeration");
@@ -36,7 +65,18 @@ pub fn run(ctx: &Ctx) -> Result<Report, String> {
     r.assume("signals are raised synchronously on the polling thread (raise), which is the self-pipe's view of asynchronous delivery");
     r.assume("fairness: the peer keeps draining and answers DA1, so the closing sequence can be delivered within dispose's own time budget");
     r.assume("order between events of different sources arriving within one select round is not judged (the kernel does not define it)");
-    r.violations = merged.violations;
+    r.set("successive_terminals_on_one_device", successive.clone());
+    let mut violations = merged.violations;
+    if let Some(ps) = successive["problems"].as_array() {
+        for p in ps {
+            violations.push(crate::engine::report::Violation {
+                key: format!("C17:{}", p[0].as_str().unwrap_or("successive")),
+                what: p[1].as_str().unwrap_or("").to_string(),
+                witness: json!({"kind": "successive-terminals"}),
+            });
+        }
+    }
+    r.violations = violations;
     Ok(r)
 }
 
@@ -44,6 +84,11 @@ pub fn replay(w: &Value) -> Result<(bool, String), String> {
     match w["kind"].as_str() {
         Some("session") => tc::replay_session(w),
         Some("session-unit") => super::c16::replay(w),
+        Some("successive-terminals") => {
+            let v = successive_in_child()?;
+            let bad = v["problems"].as_array().map(|a| !a.is_empty()).unwrap_or(false);
+            Ok((bad, format!("successive terminals on one pty device number: {v}")))
+        }
         _ => Err("unknown witness kind".into()),
     }
 }
